@@ -15,6 +15,42 @@ import (
 func init() {
 	vRegister("l2_size_rel", H_l2_size_rel)
 	vRegister("l3_size_abs", H_l3_size_abs)
+	vRegister("l3_size_rel", H_l3_size_rel)
+}
+
+// relational clause at scale: a concrete family K (many inner nodes with steps) versus P+K.
+func H_l3_size_rel() {
+	keys := vFamily(vParam("family"), vParam("n"))
+	n := len(keys)
+	plen := vParam("plen")
+	p := make([]byte, plen)
+	for i := range p {
+		p[i] = byte('a' + i%7)
+	}
+	P := string(p)
+	tail := vString("tail", 1) // content of a leaf tail must not matter
+	pkeys := make([]string, n)
+	k2 := make([]string, n)
+	for i := range keys {
+		k2[i] = keys[i]
+		if i == n-1 {
+			k2[i] += tail
+		}
+		pkeys[i] = P + k2[i]
+	}
+	a, err1 := NewSlimTrie(encode.Dummy{}, k2, nil)
+	b, err2 := NewSlimTrie(encode.Dummy{}, pkeys, nil)
+	vAssert(err1 == nil && err2 == nil, "build-ok")
+	if err1 != nil || err2 != nil {
+		vAssume(false)
+	}
+	ma, mb := vMeasure(a.inner), vMeasure(b.inner)
+	vAssert(vAbsDiff(ma, mb) <= 24, "C17.length-independent.measure")
+	ba, _ := a.Marshal()
+	bb, _ := b.Marshal()
+	vAssert(vNativeTrue(vAbsDiff(len(ba), len(bb)) <= 16), "C17.length-independent.bytes(native)")
+	vObserve("measure", ma)
+	vReach("end")
 }
 
 // vVarint64 is the exact proto3 varint size of v; vVarintMax bounds it for symbolic words.
@@ -123,6 +159,11 @@ func vFamily(id, n int) []string {
 	case 2: // fan-out 11 byte nodes
 		for i := 0; i < n; i++ {
 			ks = append(ks, string([]byte{byte(0x10 + (i/121)%11*0x15), byte(0x10 + (i/11)%11*0x15), byte(0x10 + i%11*0x15)}))
+		}
+	case 5: // many groups "user%02d:" + {mail,name,profile}: dozens of inner nodes with short steps
+		for i := 0; i < n/3; i++ {
+			u := "user" + string([]byte{byte('0' + i/10), byte('0' + i%10)}) + ":"
+			ks = append(ks, u+"mail", u+"name", u+"profile")
 		}
 	case 4: // a shared run in front of a 257-bit node: 16 keys P + distinct byte
 		p := ""
